@@ -23,19 +23,30 @@ Definition tag_I : bytes := [73].
 Definition tag_In : bytes := [73; 110].
 Definition tag_P : bytes := [80].
 
-(* what the property prescribes for the variable after the step, given its old value:
+(* what the property allows for the variable after the step, given its old value:
    the nested assoc / dissoc; a step that raises leaves the variable alone;
-   tmp / with steps change it only inside *)
-Definition spec_after (st : step) (old : value) : option value :=
+   tmp / with steps change it only inside.  None = outside the modelled subset.
+   For a step with two element lvalues of the same variable, "its old value" may be
+   read as the value just before each assignment (sequential result) or as the value
+   before the command (the second assoc starts from the command's initial container,
+   which is what vars.MakeElement implements): both comply. *)
+Definition after_assoc (old : value) (p : list value) (v : value) (onerr : value) : option value :=
+  match nested_assoc old p v with POk nv => Some nv | PErr _ => Some onerr | PUnsup => None end.
+
+Definition spec_after (st : step) (old : value) : option (list value) :=
   match st with
-  | SSet p v => match nested_assoc old p v with POk nv => Some nv | PErr _ => Some old | PUnsup => None end
-  | SDel p => match nested_dissoc old p with POk nv => Some nv | PErr _ => Some old | PUnsup => None end
-  | STmp _ _ | SWith _ _ => Some old
+  | SSet p v => option_map (fun x => [x]) (after_assoc old p v old)
+  | SDel p => match nested_dissoc old p with
+              | POk nv => Some [nv] | PErr _ => Some [old] | PUnsup => None end
+  | STmp _ _ | SWith _ _ => Some [old]
   | SMulti p1 v1 p2 v2 =>
     match nested_assoc old p1 v1 with
-    | POk mid => match nested_assoc mid p2 v2 with
-                 | POk nv => Some nv | PErr _ => Some mid | PUnsup => None end
-    | PErr _ => Some old
+    | POk mid =>
+      match after_assoc mid p2 v2 mid, after_assoc old p2 v2 mid with
+      | Some sequential, Some from_start => Some [sequential; from_start]
+      | _, _ => None
+      end
+    | PErr _ => Some [old]
     | PUnsup => None
     end
   end.
@@ -88,7 +99,7 @@ Fixpoint check_steps (steps : list step) (i : nat) (old : value) (snaps : list v
     | Some (x, groups) =>
       let snaps' := snaps ++ [old] in
       aliases_ok snaps' groups
-      && match spec_after st old with Some nv => value_eqb x nv | None => true end
+      && match spec_after st old with Some allowed => existsb (value_eqb x) allowed | None => true end
       && match spec_inside st old with
          | Some (Some nv) => match find_inside iv log with Some y => value_eqb y nv | None => false end
          | Some None => match find_inside iv log with Some _ => false | None => true end
